@@ -46,8 +46,6 @@ def dump_value(view, key, out):
         dump_struct(view, key + ".", out)
     elif isinstance(view, ArrayView):
         n = 0 if (view.store.null and not isinstance(view.store, refsem.BitStore)) else view.count()
-        if n is refsem.UNKNOWN:
-            n = 0
         out[key + ".ok"] = b2(view.ok()) if known(n) else ("UNSPEC" if n is UNSPEC else "0")
         if not known(n):
             out[key + ".count"] = "UNSPEC"
